@@ -48,6 +48,7 @@ def mixture(r, comp=None, delta_mode=None, peneloux=None, nmin=1, nmax=6):
     delta_mode = delta_mode or r.choice(['zero', 'const', 'groups'])
     kw = {}
     groups_array = False
+    pen_drawn = {}
     if delta_mode == 'const':
         d = np.zeros((n, n))
         for i in range(n):
@@ -83,10 +84,13 @@ def mixture(r, comp=None, delta_mode=None, peneloux=None, nmin=1, nmax=6):
             props['C_pen'] = r.uniform(-5e-6, 5e-6) or 1e-6
             props['C_pen_T'] = r.uniform(-2e-8, 2e-8)
             ud[c] = props
+            pen_drawn[c] = (props['C_pen'], props['C_pen_T'])
         kw['user_data'] = ud
     fm = dbm.FluidMixture(list(comp), **kw)
     return fm, {'composition': list(comp), 'delta_mode': delta_mode, 'peneloux': bool(peneloux),
-                'peneloux_partial': peneloux == 'partial', 'groups_array': groups_array}
+                'peneloux_partial': peneloux == 'partial', 'groups_array': groups_array,
+                # what was DRAWN here (not what the object stored): user interaction table and user volume shifts
+                'delta_drawn': (kw['delta'].copy() if 'delta' in kw else None), 'pen_drawn': pen_drawn}
 
 
 def eos_args(fm):
